@@ -39,5 +39,6 @@ func init() {
 		return nil
 	}
 	p.Structural = func(e *vc.Engine) []StructResult { return gateLemma(e, regs) }
+	p.ExtraUnits = func(e *vc.Engine) ([]*vc.Unit, error) { return gateLemmaUnits(e, regs) }
 	register(p)
 }
